@@ -26,7 +26,9 @@ func H10_cross_roundtrip() {
 	N := nb*vhB + rem
 	data := vhArb("data", N)
 	hint := vhI64("sizeHint")
-	vhAssume(hint >= 0)
+	// the property quantifies over inputs on which the REFERENCE round-trips: the reference writer loses data when
+	// the hint is smaller than the data and jobs > 1 (defect F2 of the pinned commit), so the hint is absent or not smaller
+	vhAssume(vhOr(hint == 0, hint >= int64(N)))
 	ck := uint(32 * vhCase("checksum", 0, vhParam("maxChecksum", 0)))
 	obs := &vhObs{failAt: -1}
 	wctx := map[string]any{"transform": "NONE", "entropy": "NONE", "blockSize": uint(vhB), "jobs": uint(JW),
